@@ -639,6 +639,10 @@ inductive Op where
   | setVisible (x : Id) (v : Bool)
   | setLeft (x : Id) (v : Int)
   | setTop (x : Id) (v : Int)
+  /-- an attribute setter outside the modelled state: `name`, `opacity`, `clipping_layer` (the last one
+  recomputes the clipping relation, which is not part of this model): no list, pointer, dirty flag or
+  cached box changes -/
+  | setAttr (x : Id)
   | observe (o : Obs)
   deriving DecidableEq, Repr
 
@@ -680,6 +684,7 @@ def step (cfg : Cfg) (s : State) (op : Op) : State × Out :=
     | .setVisible x v => opSetVisible cfg s x v
     | .setLeft x v => opSetOffset cfg s x true v
     | .setTop x v => opSetOffset cfg s x false v
+    | .setAttr x => if !s.isLayer x then (s, .error .attributeError) else (s, .none)
     | .observe o => observe s o
     | _ => (s, .error .attributeError)
 
